@@ -560,7 +560,7 @@ class ObjEval(BlockEval):
                 raise FevalError("too many steps")
             if isinstance(st, ast.Expr) and isinstance(st.value, ast.Constant):
                 continue
-            if isinstance(st, ast.Pass):
+            if isinstance(st, (ast.Pass, ast.Import, ast.ImportFrom)):
                 continue
             if isinstance(st, ast.Return):
                 raise _Ret(self.ev(st.value, env) if st.value is not None else None)
@@ -653,8 +653,27 @@ class ObjEval(BlockEval):
             return v
         if isinstance(node, ast.Dict):
             return {self.ev(k, env): self.ev(v, env) for k, v in zip(node.keys, node.values)}
+        if isinstance(node, (ast.List, ast.Tuple)) and any(isinstance(e, ast.Starred) for e in node.elts):
+            out = []
+            for e in node.elts:
+                if isinstance(e, ast.Starred):
+                    out.extend(self.ev(e.value, env))
+                else:
+                    out.append(self.ev(e, env))
+            return out if isinstance(node, ast.List) else tuple(out)
         if isinstance(node, ast.List):
             return [self.ev(e, env) for e in node.elts]
+        if isinstance(node, ast.Attribute):
+            base = self.ev(node.value, env)
+            if isinstance(base, Obj) and node.attr not in base and node.attr in getattr(self, "properties", {}):
+                return self.call_method(self.properties[node.attr], base)
+            if isinstance(base, Obj) and node.attr in base:
+                return base[node.attr]
+            if isinstance(base, dict) and not isinstance(base, Obj) and node.attr in base:
+                return base[node.attr]
+            if node.attr in ("real", "imag") and isinstance(base, (complex, float, int)):
+                return getattr(base, node.attr)
+            raise FevalError(f"attribute {node.attr}")
         if isinstance(node, ast.DictComp):
             out = {}
 
